@@ -224,8 +224,13 @@ fn run_inner(rng: &mut Rng, style: usize) -> (CaseOut, Vec<(usize, Vec<D3>)>) {
     (out, trace)
 }
 
+/// sparse monitoring: nothing is queried between the operations (queries canonicalise handles and compress union-find paths);
+/// handles are read for the first time after the last operation, oldest first
+static SPARSE: std::sync::atomic::AtomicBool = std::sync::atomic::AtomicBool::new(false);
+
 fn run_inner2(rng: &mut Rng, style: usize, trace: &mut Vec<(usize, Vec<D3>)>) -> CaseOut {
     let mut out = CaseOut::default();
+    let sparse = SPARSE.load(std::sync::atomic::Ordering::Relaxed);
     CONFLICTS.with(|c| c.borrow_mut().clear());
     CALLS.with(|c| *c.borrow_mut() = (0, 0, 0));
     let pool = rule_pool(M1);
@@ -243,7 +248,7 @@ fn run_inner2(rng: &mut Rng, style: usize, trace: &mut Vec<(usize, Vec<D3>)>) ->
     let mut lowered = false;
     for step in 0..steps {
         let roll = rng.below(10);
-        let before_data: Vec<D3> = handles.iter().map(|(h, _)| *eg.analysis_data(h.id)).collect();
+        let before_data: Vec<D3> = if sparse { vec![] } else { handles.iter().map(|(h, _)| *eg.analysis_data(h.id)).collect() };
         let mut united: Option<(usize, usize)> = None;
         let mut desc = String::new();
         let r = guard(|| {
@@ -272,16 +277,29 @@ fn run_inner2(rng: &mut Rng, style: usize, trace: &mut Vec<(usize, Vec<D3>)>) ->
                 let v = rename_text(&v, style).replace("\u{1}", &t);
                 // a parent over the bigger variant first, so that the union lowers a child's datum afterwards
                 let parent = format!("(mul 2 {v})");
-                desc = format!("add {parent}; union {t} = {v}");
-                eg.add_expr(RecExpr::parse(&parent).unwrap());
+                // (half of the time also a parent over the other side: the two parents become congruent by the union, one of
+                // them dies by congruence and its handle stays behind a union-find chain)
+                let parent2 = format!("(mul 2 {t})");
+                let both = rng.chance(1, 2);
+                desc = if both { format!("add {parent}; add {parent2}; union {t} = {v}") } else { format!("add {parent}; union {t} = {v}") };
+                let ph = eg.add_expr(RecExpr::parse(&parent).unwrap());
                 let b = eg.add_expr(RecExpr::parse(&v).unwrap());
                 let a = handles[i].0.clone();
                 handles.push((b.clone(), v));
                 united = Some((i, handles.len() - 1));
-                let (da, db) = (eg.analysis_data(a.id).0, eg.analysis_data(b.id).0);
-                eg.union(&a, &b);
-                if eg.analysis_data(b.id).0 < da.max(db) {
-                    lowered = true;
+                handles.push((ph, parent));
+                if both {
+                    let ph2 = eg.add_expr(RecExpr::parse(&parent2).unwrap());
+                    handles.push((ph2, parent2));
+                }
+                if sparse {
+                    eg.union(&a, &b);
+                } else {
+                    let (da, db) = (eg.analysis_data(a.id).0, eg.analysis_data(b.id).0);
+                    eg.union(&a, &b);
+                    if eg.analysis_data(b.id).0 < da.max(db) {
+                        lowered = true;
+                    }
                 }
             } else if eg.total_number_of_nodes() < 120 {
                 desc = format!("rewrite {:?}", chosen.iter().map(|r| r.name).collect::<Vec<_>>());
@@ -301,7 +319,23 @@ fn run_inner2(rng: &mut Rng, style: usize, trace: &mut Vec<(usize, Vec<D3>)>) ->
             out.inc("runs_over_node_budget");
             break;
         }
+        if sparse && step + 1 < steps {
+            continue;
+        }
         let res = guard(|| -> Result<(), (String, String)> {
+            if sparse {
+                // first touch of every handle, oldest first: the datum reported for an old handle is the datum of its class
+                for (k, (h, txt)) in handles.iter().enumerate() {
+                    let d_old = *eg.analysis_data(h.id);
+                    let f = eg.find_applied_id(h);
+                    let d_new = *eg.analysis_data(f.id);
+                    out.inc("old_handle_data_reads");
+                    if d_old != d_new {
+                        return Err(("equal-classes-different-datum".into(), format!("handle #{k} ({txt}): analysis_data of the handle as returned is {d_old:?}, of its canonical form {d_new:?}")));
+                    }
+                }
+                return check_all(&eg, rng, &mut out);
+            }
             // a union's result is the join of both sides (here: at most the minimum of what both had before)
             if let Some((i, j)) = united {
                 let after = *eg.analysis_data(handles[i].0.id);
@@ -408,6 +442,7 @@ fn run_inner2(rng: &mut Rng, style: usize, trace: &mut Vec<(usize, Vec<D3>)>) ->
 }
 
 pub fn run(args: &Args, rep: &mut Rep) {
+    SPARSE.store(args.param_u("sparse", 0) == 1, std::sync::atomic::Ordering::Relaxed);
     if args.param_u("renamed", 0) == 1 {
         drive(args, rep, |rng, _| run_renamed_case(rng));
     } else {
